@@ -3,8 +3,11 @@ package mon
 import (
 	"encoding/json"
 	"fmt"
+	"math/big"
 	"os"
 	"path/filepath"
+	"verifharness/raw"
+	"verifharness/ref"
 
 	"filippo.io/edwards25519"
 	"filippo.io/edwards25519/field"
@@ -82,8 +85,51 @@ func c03Emit(c *Ctx) {
 				write(nm, ins)
 			}
 		}
+		// z3: the second witness class of K1 - a valid point whose X has a zero lowest limb
+		// without being all zero (x = k * 2^204 given as a canonical element)
+		if z3 := zeroLowXLimbPoint(); z3 != nil {
+			ins := make([]ctInputs, len(ops))
+			for oi := range ops {
+				ins[oi] = gen0(oi)
+				if len(ins[oi].Pts) > 0 {
+					ins[oi].Pts[0] = z3
+					ins[oi].Class = "point-input-with-zero-low-X-limb"
+				}
+			}
+			write("z3", ins)
+		} else {
+			c.Inconclusive("no witness of the zero-low-X-limb class could be constructed (layout guard failed or no such point found)")
+		}
 	}
 	b, _ := json.Marshal(meta)
 	os.WriteFile(filepath.Join(dir, fmt.Sprintf("meta-%d.json", c.Worker)), b, 0o644)
 	c.Res.Extra["entry-points"] = CTOpNames()
+}
+
+// zeroLowXLimbPoint returns a valid point, built through SetExtendedCoordinates, whose X limbs are
+// [0 0 0 0 k] for a small k > 0, or nil.
+func zeroLowXLimbPoint() *edwards25519.Point {
+	if !raw.PointOK() {
+		return nil
+	}
+	for k := int64(1); k < 4096; k++ {
+		x := new(big.Int).Lsh(big.NewInt(k), 204)
+		for _, odd := range []bool{false, true} {
+			m, ok := ref.FromX(x, odd)
+			if !ok {
+				continue
+			}
+			// through SetExtendedCoordinates with canonical coordinate elements: the point keeps
+			// exactly the limbs it is given
+			p, err := new(edwards25519.Point).SetExtendedCoordinates(gen.Canon(m.X), gen.Canon(m.Y), gen.Canon(big.NewInt(1)), gen.Canon(ref.FMul(m.X, m.Y)))
+			if err != nil {
+				continue
+			}
+			l := raw.PointLimbs(p)
+			if l[0][0] == 0 && l[0][1] == 0 && l[0][2] == 0 && l[0][3] == 0 && l[0][4] != 0 {
+				return p
+			}
+		}
+	}
+	return nil
 }
